@@ -1,26 +1,204 @@
 import Mutagen.Model.Ring
+import Mutagen.Proofs.Ring
+import Mutagen.Proofs.RingFacts
 /-!
 # C26 — the ring buffer behaves as a bounded FIFO byte queue
 
-Property theorems only (helper lemmas live in `Mutagen.Proofs.Ring`).
+Property theorems only (helper lemmas live in `Mutagen.Proofs.Ring` and
+`Mutagen.Proofs.RingFacts`).
+
+`Buffer` is the model of `ring.Buffer` (storage/size/start/used, loops mirrored
+one iteration at a time), `Buffer.Inv` the representation invariant from the Go
+comments, `Buffer.toQueue` the abstraction to the specification `Queue`
+(capacity + contents, oldest first). Everything is for every capacity,
+including 0, and every buffer state satisfying the invariant — not only
+reachable ones.
 -/
 namespace Mutagen.Properties.C26
-open Mutagen.Model.Ring
+open Mutagen.Model.Ring Mutagen.Proofs.Ring
 
 /-- A fresh buffer satisfies the representation invariant and is empty. -/
 theorem new_inv (n : Nat) : (new n).Inv ∧ (new n).abs = [] := by
-  refine ⟨⟨by simp [new], by simp [new], ?_⟩, by simp [new, Buffer.abs]⟩
-  by_cases h : n = 0
-  · right; simp [new, h]
-  · left; simp [new]; omega
+  refine ⟨(new_refines n).1, by simp [new, Buffer.abs]⟩
+
+/-- `NewBuffer(n)` represents the empty queue of capacity `n`. -/
+theorem new_refines (n : Nat) : (new n).Inv ∧ (new n).toQueue = Queue.new n :=
+  Mutagen.Proofs.Ring.new_refines n
 
 /-- `Reset` preserves the invariant and empties the queue. -/
 theorem reset_inv (b : Buffer) (h : b.Inv) : b.reset.Inv ∧ b.reset.abs = [] := by
-  obtain ⟨h1, h2, h3⟩ := h
-  refine ⟨⟨h1, by simp [Buffer.reset], ?_⟩, by simp [Buffer.reset, Buffer.abs]⟩
-  simp only [Buffer.reset]
-  rcases h3 with h3 | h3
-  · left; omega
-  · right; simp [h3.1]
+  refine ⟨(reset_refines b h).1, by simp [Buffer.reset, Buffer.abs]⟩
+
+/-! ## The representation invariant is preserved by every operation -/
+
+/-- Every operation (Write, WriteByte, Read, ReadByte, Reset, ReadNFrom with any
+reader script, WriteTo with any writer script) preserves the invariant. -/
+theorem inv_preserved (b : Buffer) (h : b.Inv) (op : Op) : (b.step op).1.Inv :=
+  (step_refines b h op).1
+
+/-- …and so does every sequence of operations, from a fresh buffer of any capacity. -/
+theorem inv_reachable (cap : Nat) (ops : List Op) : ((new cap).run ops).1.Inv :=
+  (run_refines ops (new cap) (new_refines cap).1).1
+
+/-! ## Refinement, operation by operation
+
+Each theorem says: the invariant still holds, and the triple (abstract queue
+after the call, returned count / bytes, returned error) equals what the plain
+bounded queue does. -/
+
+/-- `Write`: appends the longest prefix that fits, returns its length, and
+`ErrBufferFull` exactly when something did not fit. -/
+theorem write_refines (b : Buffer) (h : b.Inv) (data : List UInt8) :
+    (b.write data).1.Inv ∧
+    ((b.write data).1.toQueue, (b.write data).2.1, (b.write data).2.2) = b.toQueue.write data :=
+  Mutagen.Proofs.Ring.write_refines b h data
+
+/-- `WriteByte`. -/
+theorem writeByte_refines (b : Buffer) (h : b.Inv) (v : UInt8) :
+    (b.writeByte v).1.Inv ∧
+    ((b.writeByte v).1.toQueue, (b.writeByte v).2) = b.toQueue.writeByte v :=
+  Mutagen.Proofs.Ring.writeByte_refines b h v
+
+/-- `Read`: returns the oldest `min len used` bytes in order; `(0, nil)` for an
+empty destination; `io.EOF` exactly when the destination is non-empty and the
+queue is empty. -/
+theorem read_refines (b : Buffer) (h : b.Inv) (len : Nat) :
+    (b.read len).1.Inv ∧
+    ((b.read len).1.toQueue, (b.read len).2.1, (b.read len).2.2) = b.toQueue.read len :=
+  Mutagen.Proofs.Ring.read_refines b h len
+
+/-- `ReadByte`. -/
+theorem readByte_refines (b : Buffer) (h : b.Inv) :
+    b.readByte.1.Inv ∧
+    (b.readByte.1.toQueue, b.readByte.2.1, b.readByte.2.2) = b.toQueue.readByte :=
+  Mutagen.Proofs.Ring.readByte_refines b h
+
+/-- `Reset`. -/
+theorem reset_refines (b : Buffer) (h : b.Inv) : b.reset.Inv ∧ b.reset.toQueue = b.toQueue.reset :=
+  Mutagen.Proofs.Ring.reset_refines b h
+
+/-- `ReadNFrom`, for every reader script (arbitrary short reads and errors):
+the run is one of the runs of the queue-level loop in which each call offers
+the reader some non-empty window no larger than the remaining request and the
+free space. -/
+theorem readNFrom_refines (b : Buffer) (h : b.Inv) (script : List ReadResp) (n : Nat) :
+    (b.readNFrom script n).1.Inv ∧
+    b.toQueue.ReadNFrom script n
+      ((b.readNFrom script n).1.toQueue, (b.readNFrom script n).2.1, (b.readNFrom script n).2.2) :=
+  Mutagen.Proofs.Ring.readNFrom_refines b h script n
+
+/-- `WriteTo`, for every writer script (arbitrary short writes and failures):
+the run is one of the runs of the queue-level loop in which each call offers
+the writer a non-empty prefix of the queue. -/
+theorem writeTo_refines (b : Buffer) (h : b.Inv) (script : List WriteResp) :
+    (b.writeTo script).1.Inv ∧
+    b.toQueue.WriteTo script
+      ((b.writeTo script).1.toQueue, (b.writeTo script).2.1, (b.writeTo script).2.2) :=
+  Mutagen.Proofs.Ring.writeTo_refines b h script
+
+/-! ## Exact accounting with short-reading / short-writing peers -/
+
+/-- `ReadNFrom` accounts exactly: the queue grows by exactly the bytes the
+reader delivered (a concatenation of prefixes of its responses, in order), the
+returned count is their number, never more than `n` nor than the free space;
+`nil` error only if all `n` bytes were read; EOF is never reported together
+with completion; `ErrBufferFull` (for readers that do not themselves return
+it) only for an incomplete read into a now-full buffer, and always in that
+situation when the reader did not fail. -/
+theorem readNFrom_accounting (b : Buffer) (h : b.Inv) (script : List ReadResp) (n : Nat) :
+    ∃ delivered, Chunks script delivered ∧
+      (b.readNFrom script n).1.abs = b.abs ++ delivered ∧
+      (b.readNFrom script n).1.size = b.size ∧
+      (b.readNFrom script n).2.1 = delivered.length ∧
+      (b.readNFrom script n).2.1 ≤ n ∧
+      (b.readNFrom script n).1.abs.length ≤ b.size ∧
+      ((b.readNFrom script n).2.2 = .none → (b.readNFrom script n).2.1 = n) ∧
+      ((b.readNFrom script n).2.1 = n → (b.readNFrom script n).2.2 ≠ .eof) ∧
+      ((b.readNFrom script n).2.2 = .full → (∀ r ∈ script, r.err ≠ .full) →
+        (b.readNFrom script n).2.1 < n ∧ (b.readNFrom script n).1.abs.length = b.size) ∧
+      ((b.readNFrom script n).2.1 < n → (b.readNFrom script n).1.abs.length = b.size →
+        (∀ r ∈ script, r.err = .none) → (b.readNFrom script n).2.2 = .full) := by
+  have hq : b.toQueue.data.length ≤ b.toQueue.cap := by
+    show b.abs.length ≤ b.size
+    rw [abs_length b h]; exact h.2.1
+  exact readNFrom_facts (Mutagen.Proofs.Ring.readNFrom_refines b h script n).2 hq
+
+/-- `WriteTo` accounts exactly: the bytes handed to (and accepted by) the
+writer followed by what is left in the buffer are the old contents; a `nil`
+error means the buffer was drained completely; the only error is the writer's. -/
+theorem writeTo_accounting (b : Buffer) (h : b.Inv) (script : List WriteResp) :
+    b.abs = (b.writeTo script).2.1 ++ (b.writeTo script).1.abs ∧
+    (b.writeTo script).1.size = b.size ∧
+    ((b.writeTo script).2.2 = .none → (b.writeTo script).1.abs = []) ∧
+    ((b.writeTo script).2.2 = .none ∨ (b.writeTo script).2.2 = .peer) :=
+  writeTo_facts (Mutagen.Proofs.Ring.writeTo_refines b h script).2
+
+/-! ## Whole operation sequences -/
+
+/-- For every capacity (including 0) and every sequence of operations, the
+outputs of the ring buffer (counts, bytes, errors of every call) and its final
+contents are those of a run of the bounded-queue specification. -/
+theorem run_refines (cap : Nat) (ops : List Op) :
+    Queue.Run (Queue.new cap) ops ((new cap).run ops).1.toQueue ((new cap).run ops).2 := by
+  have h := Mutagen.Proofs.Ring.run_refines ops (new cap) (new_refines cap).1
+  rw [(new_refines cap).2] at h
+  exact h.2
+
+/-- The same from any state satisfying the invariant. -/
+theorem run_refines_from (b : Buffer) (h : b.Inv) (ops : List Op) :
+    (b.run ops).1.Inv ∧ Queue.Run b.toQueue ops (b.run ops).1.toQueue (b.run ops).2 :=
+  Mutagen.Proofs.Ring.run_refines ops b h
+
+/-- The contents never exceed the capacity and `Used()` is their number. -/
+theorem used_is_length (cap : Nat) (ops : List Op) :
+    ((new cap).run ops).1.abs.length = ((new cap).run ops).1.used ∧
+    ((new cap).run ops).1.used ≤ cap ∧ ((new cap).run ops).1.size = cap := by
+  have hinv := inv_reachable cap ops
+  have hs : ((new cap).run ops).1.size = cap := by
+    have := Mutagen.Proofs.Ring.run_size ops (new cap) (new_refines cap).1
+    simpa [new] using this
+  have hu := hinv.2.1
+  exact ⟨abs_length _ hinv, by omega, hs⟩
+
+/-! ## The fuel of the model's loops is never what stops them -/
+
+/-- `Write`'s loop: with the fuel `Buffer.write` supplies (or any larger or
+smaller amount above `len(data)`) the result is the same… -/
+theorem writeLoop_fuel_irrelevant (b : Buffer) (h : b.Inv) (data : List UInt8) (result fuel : Nat)
+    (hf : data.length < fuel) :
+    writeLoop fuel b data result = writeLoop (data.length + 1) b data result :=
+  writeLoop_fuel fuel (data.length + 1) b data result h hf (by omega)
+
+/-- …and the loop ends with its own guard `len(data) > 0 && b.used != b.size` false. -/
+theorem writeLoop_ends_by_guard (b : Buffer) (h : b.Inv) (data : List UInt8) (result : Nat) :
+    ¬((writeLoop (data.length + 1) b data result).2.1.length > 0 ∧
+      (writeLoop (data.length + 1) b data result).1.used ≠ (writeLoop (data.length + 1) b data result).1.size) :=
+  writeLoop_guard_false _ b data result h (by omega)
+
+/-- `Read`'s loop: any fuel above `len(buffer)` gives the same result… -/
+theorem readLoop_fuel_irrelevant (b : Buffer) (h : b.Inv) (want : Nat) (acc : List UInt8) (fuel : Nat)
+    (hf : want < fuel) :
+    readLoop fuel b want acc = readLoop (want + 1) b want acc :=
+  readLoop_fuel fuel (want + 1) b want acc h hf (by omega)
+
+/-- …and the loop ends with its own guard `len(buffer) > 0 && b.used > 0`
+false: the destination is full or the buffer is empty. -/
+theorem readLoop_ends_by_guard (b : Buffer) (h : b.Inv) (want : Nat) (acc : List UInt8) :
+    (readLoop (want + 1) b want acc).2.length = acc.length + want ∨
+    (readLoop (want + 1) b want acc).1.used = 0 :=
+  readLoop_guard_false _ b want acc h (by omega)
+
+/-! ## Non-vacuity -/
+
+/-- The invariant admits wrapped layouts (`[DATA2|FREE1|DATA1]`): data `3,4`
+at the end of the storage continuing with `5` at its beginning. -/
+example : (⟨[5, 0, 3, 4], 4, 2, 3⟩ : Buffer).Inv ∧ (⟨[5, 0, 3, 4], 4, 2, 3⟩ : Buffer).abs = [3, 4, 5] := by
+  refine ⟨⟨rfl, by decide, .inl (by decide)⟩, by decide⟩
+
+/-- Writing into the wrapped layout fills the gap and reports `ErrBufferFull`. -/
+example : ((⟨[5, 0, 3, 4], 4, 2, 3⟩ : Buffer).write [6, 7]).2 = (1, .full) := by decide
+
+/-- Capacity 0: every write is refused, every read is EOF. -/
+example : ((new 0).write [1]).2 = (0, .full) ∧ ((new 0).read 1).2 = ([], .eof) := by decide
 
 end Mutagen.Properties.C26
